@@ -6,6 +6,7 @@ require (
 	github.com/bnb-chain/tss-lib/v2 v2.0.0
 	github.com/btcsuite/btcutil v1.0.2
 	golang.org/x/crypto v0.13.0
+	google.golang.org/protobuf v1.31.0
 )
 
 replace github.com/bnb-chain/tss-lib/v2 => /repo
